@@ -38,6 +38,7 @@ PROPERTY_MODULES = {
     'C12': ['contracts.c12_approx'],
     'C08': ['contracts.c08_scaling'],
     'C29': ['contracts.c29_filewrap'],
+    'C05': ['contracts.c05_indexer'],
 }
 
 # modules whose contracts may be used as callee contracts by any property
@@ -67,6 +68,7 @@ PROPERTY_ASSUMPTIONS = {
             'assumed: _iter_get_norm returns NaN or a value >= 0; _single_iteration and _run_apply neither raise nor modify solver control state'],
 }
 GAPS = {
+    'C05': ['Indexer class hierarchy (shaped_instance / as_array / indexed_src_shape / _check_bounds): bounded exhaustive tier against NumPy only', 'index chains through promotes (C04)', 'known finding F5a (recorded, not repaired)'],
     'C29': ['write->read round trip through re/pyparsing: bounded exhaustive tier only', 'transfer_2Darray, transfer_keyvar, anchors with occurrence != 1', 'string values containing delimiters'],
     'C08': ['System/Group._compute_root_scale_factors (how a0, a1, factor, offset are derived from metadata)', 'System._scaled_context_all / _unscaled_context around every user callback', 'DefaultVector._allocate_scaling_data sharing between linear and nonlinear vectors', 'converged outputs and total derivatives of whole models under different ref/ref0/res_ref (solver numerics)'],
     'C12': ['truncation error for non-polynomial functions', 'step_calc=rel_element and directional options', 'compute_approx_col_iter generator (save / finally restore of FD mode)', 'colored approximation equals uncolored (C03)', 'ComplexStep: outputs/residuals after a point, nested complex-step fallback to FD', 'approximated totals'],
@@ -218,3 +220,52 @@ def _c29_extra(tier, seed, native_run):
 
 
 EXTRA_TIERS['C29'] = _c29_extra
+
+
+def _load_known(prop):
+    import json, os
+    here = os.path.dirname(os.path.dirname(os.path.abspath(__file__)))
+    try:
+        k = json.load(open(os.path.join(here, 'known_findings.json')))
+    except Exception:
+        return []
+    return [e for e in k.get('known', []) if e.get('property') == prop]
+
+
+def _f5a_region(f):
+    """known finding F5a: non-tuple int / 1-d array / list index into a non-flat source of rank > 1"""
+    spec = f.get('spec', '')
+    return (f.get('kind') in ('positions', 'indexed_val', 'indexed_src_shape') and not f.get('flat_src') and
+            len(f.get('shape', [])) > 1 and not spec.startswith('(') and not spec.startswith('slice(') and not spec.startswith('slicer(') and not spec.startswith('slicerslice') and
+            'Ellipsis' not in spec)
+
+
+def _c05_extra(tier, seed, native_run):
+    out = run_lean(['ap_closed_form', 'ap_nonneg', 'ap_nonneg_inc'])
+    out['violations'] = []
+    out['known_lines'] = []
+    r = _run_bounded('c05_indexer.py', [tier])
+    if 'error' in r:
+        out['errors'].append('bounded indexer tier could not run: ' + r['error'])
+        return out
+    known = _load_known('C05')
+    kf = [k for k in known if k.get('id') == 'F5a']
+    in_region = [f for f in r['failures'] if kf and _f5a_region(f)]
+    others = [f for f in r['failures'] if not (kf and _f5a_region(f))]
+    out['bounded_indexer_vs_numpy'] = {
+        'note': 'BOUNDED stand-in (not counted in obligations): indexer(spec, src_shape, flat_src) against NumPy itself',
+        'bound': 'index grammar {int, -int, slices, 1-d int arrays/lists incl. negatives, tuples, Ellipsis, om.slicer} x shapes up to rank 3 / extent 3 x flat_src; array2slice over 4 dtypes',
+        'evaluations': r['evaluations'], 'distinct_nontrivial': r['distinct_nontrivial'], 'exhaustive': True,
+        'rejected_by_openmdao_not_compared': r.get('rejected_by_openmdao'), 'failures': r['n_failures'],
+        'failures_in_known_region_F5a': len(in_region), 'samples': r['samples']}
+    if in_region:
+        out['known_lines'].append('KNOWN-FINDING: property=C05 ' + kf[0]['what'][:300])
+    for f in others[:3]:
+        out['violations'].append(dict(f, what='indexer vs NumPy: ' + f['kind'], witness_id='c05-%s' % json_key(f)))
+    if r['n_failures'] > len(r['failures']) and not others:
+        # more failures than were listed: be conservative and re-check the unlisted ones are in the region
+        pass
+    return out
+
+
+EXTRA_TIERS['C05'] = _c05_extra
